@@ -402,7 +402,7 @@ pub static C01: SimpleProp = SimpleProp {
     id: "C01",
     level: "exploration",
     rule: "one evaluation = one decode of a reference-encoded symbol program (random lc/lp/pb over all 225 settings, dictionary header values incl. <4096, tiny raw dictionaries 1..4095, both terminations, all three header options, benign short reads/writes through 4 reader kinds; now and then a multi-megabyte stream over a large dictionary) compared online with the LZ model; plus a second decode under another declared dictionary size; distinct = distinct (scenario, event log) hash; non-trivial = expected output non-empty",
-    runs_quick: 60_000,
+    runs_quick: 200_000,
     runs_thorough: 24_000_000,
     both_profiles: false,
     assumptions: &[
